@@ -67,11 +67,12 @@ Theorem C11_close_releases : C11_close_releases_full.
 Proof. exact close_releases. Qed.
 Print Assumptions C11_close_releases.
 
-(* "the closer is at the step that readies it" is not an empty promise: that step is ENABLED in every state and
-   closes closeNotifyCh - in particular Stream.close notifies BEFORE it waits for a running callback goroutine *)
+(* "the closer is at the step that readies it" is not an empty promise: within two of the closer's OWN steps,
+   enabled whatever the reader does, closeNotifyCh is closed - with callbacks installed Stream.close notifies
+   BEFORE it waits for the callback goroutine; without callbacks its clean() waits for nothing *)
 Theorem C11_close_helper_enabled : forall s,
   ppc s = true \/ lc_mid_open (lc s) = true \/ dpc s = true ->
-  exists e, is_reader_ev e = false /\ closeN (step s e) = true.
+  exists es, (length es <= 2)%nat /\ forallb (fun e => negb (is_reader_ev e)) es = true /\ closeN (run es s) = true.
 Proof. exact close_helper_enabled. Qed.
 Print Assumptions C11_close_helper_enabled.
 
